@@ -51,6 +51,7 @@ func (sc *dscenario) dn() string {
 }
 
 type drun struct {
+	hung      int // HTTPS: replies stalled inside the body on which the client never gave up
 	exit      int
 	stdout    string
 	stderr    string
@@ -238,6 +239,7 @@ func runDialogue(scr *core.Scratch, sc *dscenario, o runOpts) *drun {
 	} else {
 		r.trans = web.Trans
 		r.commits = web.Commits
+		r.hung = web.Hung
 		if web.Pan != nil {
 			r.after = web.Pan.Devices.String()
 		} else {
